@@ -318,8 +318,8 @@ def exhaustive_part(ctx, fails):
         else:
             pick = vecs
         cases = [('5node-' + order, prog_for(order, v, ctx.rng)) for v in pick]
-        if not ctx.quick and order != 'rev':       # two more independent shuffles of every graph
-            for rep in range(2):
+        if not ctx.quick and order != 'rev':       # one more independent shuffle of every graph
+            for rep in range(1):
                 cases += [('5node-' + order, prog_for(order, v, ctx.rng)) for v in vecs]
         check_cases(ctx, cases, fails, 'c18' + order, shard=250)
 
